@@ -108,7 +108,7 @@ def _geometry(obs, case):
 
     if case["kind"] == "plate":
         R, C = case["rows"], case["cols"]
-        lw = robotools.Labware("P", R, C, min_volume=0, max_volume=1000, initial_volumes=10)
+        lw = robotools.Labware("T", R, C, min_volume=0, max_volume=1000, initial_volumes=10)  # same name as the troughs on purpose (name-keyed caches)
         nrows_ids = R
         trough = False
     else:
